@@ -90,6 +90,14 @@ def parseOp (pos : Nat) : Sexp → Option (List Op)
   | .list [.atom "query", c] => do
       let c ← c.asNat?
       pure [.mkq (100000 + pos) c none, .evalq (100000 + pos), .dropq (100000 + pos)]
+  -- an evaluation that ends abnormally (`the(...)` raising, handled) or is abandoned after its first result: for the
+  -- registry an evaluation like any other — it sweeps when it starts to run, and nothing of it is left afterwards
+  | .list [.atom "qfail", c] => do
+      let c ← c.asNat?
+      pure [.mkq (100000 + pos) c none, .evalq (100000 + pos), .dropq (100000 + pos)]
+  | .list [.atom "qabandon", c] => do
+      let c ← c.asNat?
+      pure [.mkq (100000 + pos) c none, .evalq (100000 + pos), .dropq (100000 + pos)]
   | .list (.atom "queryd" :: c :: dom) => do
       let c ← c.asNat?
       pure [.mkq (100000 + pos) c (some (← dom.mapM Sexp.asNat?)), .evalq (100000 + pos), .dropq (100000 + pos)]
